@@ -282,7 +282,7 @@ class Fluid:
         mu_o: ndarray
             :math:`\mu_o`, the oil viscosity
         """
-        visc_br = np.vectorize(viscosity_beggs_robinson)
+        visc_br = np.vectorize(viscosity_beggs_robinson, otypes=[float])
         mu_o = visc_br(
             self.temperature,
             pressure,
